@@ -25,7 +25,11 @@ VARIABLES lim, tmp, now, live, n, hist, unl, ghost, path
 vars == <<lim, tmp, now, live, n, hist, unl, ghost, path>>
 view == <<lim, tmp, now, live, n, unl, ghost, path>>
 Cap2(x) == IF x > 2 THEN 2 ELSE x
-Init == path \in {"serveconn", "listen"} /\ lim \in Limits /\ tmp = 0 /\ now = 0 /\ live = 0 /\ n = 0 /\ unl = 0 /\ ghost = [rej |-> 0, unlended |-> 0] /\ hist = <<[op |-> "limit", k |-> lim, admitted |-> 0, live |-> 0]>>
+\* path "dial": the plugin sits on the dialling peer (PostDial takes the slot; a re-dial takes none), which re-dials
+\* lost connections.  Blip: the remote end drops the oldest admitted session's connection and the session re-dials
+\* successfully: it is one admitted session before and after, and no disconnect hook runs.  (A remote disconnect that
+\* ENDS a session needs a failing re-dial; on this path sessions end by Close.)
+Init == path \in {"serveconn", "listen", "dial"} /\ lim \in Limits /\ (path = "dial" => lim # 0) /\ tmp = 0 /\ now = 0 /\ live = 0 /\ n = 0 /\ unl = 0 /\ ghost = [rej |-> 0, unlended |-> 0, blips |-> 0] /\ hist = <<[op |-> "limit", k |-> lim, admitted |-> 0, live |-> 0]>>
 
 Rec(op, k, adm) == n < MaxOps /\ n' = n + 1 /\ UNCHANGED path /\ hist' = Append(hist, [op |-> op, k |-> k, admitted |-> adm, live |-> live'])
 
@@ -48,14 +52,16 @@ Burst(k) == \* k connects one after the other (the code's atomics serialise them
            IN /\ lim # 0 /\ tmp' = fin[1] /\ now' = fin[2] /\ live' = live + adm /\ UNCHANGED <<lim, unl>> /\ Rec("burst", k, adm)
               /\ ghost' = [ghost EXCEPT !.rej = Cap2(@ + k - adm)]
 \* sessions end oldest first; one admitted without a limiter holds no slot and releases none
-End(kind) == /\ live > 0 /\ live' = live - 1
+End(kind) == /\ live > 0 /\ live' = live - 1 /\ (kind = "disc" => path # "dial")
              /\ IF unl > 0 THEN unl' = unl - 1 /\ UNCHANGED <<tmp, now>>
                                  /\ ghost' = [ghost EXCEPT !.unlended = IF lim > 0 THEN Cap2(@ + 1) ELSE @]
                            ELSE tmp' = tmp - 1 /\ now' = now - 1 /\ UNCHANGED <<unl, ghost>>
              /\ UNCHANGED lim /\ Rec(kind, 1, 0)
 Raise == /\ lim > 0 /\ lim < 3 /\ lim' = lim + 1 /\ UNCHANGED <<tmp, now, live, unl, ghost>> /\ Rec("raise", lim + 1, 0)
 SetLimit(k) == /\ lim = 0 /\ lim' = k /\ UNCHANGED <<tmp, now, live, unl, ghost>> /\ Rec("raise", k, 0)
-Next == Connect \/ Burst(2) \/ Burst(3) \/ End("disc") \/ End("close") \/ Raise \/ SetLimit(1) \/ SetLimit(2)
+Blip == /\ path = "dial" /\ live > 0 /\ UNCHANGED <<lim, tmp, now, live, unl>> /\ Rec("blip", 1, 0)
+        /\ ghost' = [ghost EXCEPT !.blips = 1]
+Next == Blip \/ Connect \/ Burst(2) \/ Burst(3) \/ End("disc") \/ End("close") \/ Raise \/ SetLimit(1) \/ SetLimit(2)
 Spec == Init /\ [][Next]_vars
 
 \* C18: never more admitted sessions than the limit; the counters describe the admitted sessions exactly
